@@ -18,7 +18,7 @@ ASSUMPTIONS = [
     "ties in |outcome-baseline| make the additive fill order implementation-defined: those (parameter, index) pairs are checked against the convex hull only",
     "runs discarded as in C01 (ill-posed junctions, float overflow)",
 ]
-BUDGET = {"quick": 2500, "thorough": 20000}  # thorough = 8x quick: a depth that was run to completion, quiet, at seed 1 (deterministic given the seed)
+BUDGET = {"quick": 2500, "thorough": 10000}  # thorough = 4x quick: a depth that was run to completion, quiet, at seed 1 (deterministic given the seed)
 TIME_CAP = {"quick": 75, "thorough": 1500}
 PROFILE = {"p_programs": 1.0, "max_steps": 14, "extreme": 0.05, "p_function": 0.3, "p_timed": 0.3, "p_junction": 0.4, "p_limits": 0.4}
 
